@@ -133,3 +133,40 @@ CHECKS["C11"] = {
     ],
     "floors": {"C11/codec_roundtrip": {"empty_string": 0.2, "binary": 0.3, "long_string": 0.1}, "C11/codec_decode": {"rejected": 0.3, "accepted": 0.1}},
 }
+
+E3_ASSUME = ["schedules are explored at the granularity of API calls, transport read/write completions (whole, 1 byte, 7 bytes, half) and the verif-tagged scheduling points; interleavings between statements with no point between them are not enumerated",
+             "the simulated transport is an in-memory duplex pipe whose Close fails its own pending I/O (as net.Conn does); no timers are involved (InactivityTimeout unset)",
+             "hangs are decided at quiescence (every goroutine durably blocked per a whitelist of wait reasons) with nothing enabled, under a step bound of 300 director steps per RPC"]
+
+CHECKS["C06"] = {
+    "pkg": "./conn",
+    "level": "exploration",
+    "rule": ("A case is a connection configuration (soft/hard cancel, split size, writer buffer), 1..3 RPCs whose client and handler programs are drawn independently "
+             "(unary or stream; client: send/recv/closesend/close/cancel steps, unary with an optional concurrent canceller; handler: recv/send steps then return nil or an error), "
+             "optionally holding the point between stream creation and the invoke write, and up to 300 pre-drawn director choices (transport chunking, grants, point releases). "
+             "After each RPC the transport is flushed; an application-level stall is ended by Close from another goroutine. Oracle: if the connection has not reported itself closed and every client call and handler "
+             "has returned, a probe unary RPC reaches its handler and returns its own echo, decided at quiescence in flush mode. Non-trivial: the probe ran and some earlier RPC ended with bytes in flight, "
+             "an early close, a soft cancel, a handler error or a forced close. Distinct by action trace + programs."),
+    "assumptions": E3_ASSUME + ["known findings F5 and F6 are excluded by construction (see known_findings.jsonl); their minimal scenarios are replayed on every run"],
+    "subs": [
+        {"test": "TestC06Probe", "prop": "C06/probe", "quick": 16000, "thorough": 400000, "shards_quick": 16, "shards_thorough": 16, "gomaxprocs": 1},
+    ],
+    "floors": {"C06/probe": {"probed": 0.4, "soft_cancel": 0.1, "@nontrivial": 0.3}},
+}
+
+CHECKS["C04"] = {
+    "pkg": "./conn",
+    "level": "exploration",
+    "rule": ("One streaming RPC is created, then up to five client goroutines (two senders, a receiver, a terminal call Close/CloseSend, plus late operations) are advanced by up to 30 director "
+             "choices drawn from an alphabet weighted towards grants (so that several operations are in flight), optionally with 1..4 of 13 stream/manager scheduling points held; then the RPC's context "
+             "is cancelled and the transport is FROZEN (no accept, no delivery; point releases only). Oracle at quiescence: every operation of the RPC has returned; receives blocked at cancel time satisfy "
+             "errors.Is(err, context.Canceled) and, in the default mode, so do sends parked in the transport (only when the cancel is the sole termination cause); nil is never returned by a blocked op; "
+             "operations issued afterwards fail at once; once the transport moves again the peer handler ends with its stream context done and the connection is closed or a probe RPC succeeds. "
+             "Non-trivial: >= 2 operations in flight at cancel time with a write parked in the transport, a goroutine held at a point, or a terminal call in flight. Distinct by action trace + programs."),
+    "assumptions": E3_ASSUME + ["known findings F7, F13, F14 are excluded by construction (see known_findings.jsonl) and their minimal scenarios are replayed on every run",
+                                "a send that was merely queued behind another send may report io.EOF instead of the context error (the suite's own TestCancel relies on that); operations held at a scheduling point are 'in progress', only their return is demanded"],
+    "subs": [
+        {"test": "TestC04ClientCancel", "prop": "C04/client_cancel", "quick": 12000, "thorough": 400000, "shards_quick": 16, "shards_thorough": 16, "gomaxprocs": 1},
+    ],
+    "floors": {"C04/client_cancel": {"inflight_2plus": 0.15, "write_parked_at_cancel": 0.15, "soft": 0.3, "hard": 0.3, "late_ops": 0.3}},
+}
